@@ -20,7 +20,7 @@ DEFAULT_OPTS = {"pwd": False, "ip": False, "undo": False, "salt": "saltysalt", "
 
 def norm_opts(o):
     d = dict(DEFAULT_OPTS)
-    d.update(o or {})
+    d.update({k: v for k, v in (o or {}).items() if not k.startswith("_")})
     return d
 
 
